@@ -287,6 +287,11 @@ class Builder:
             built_args = (self.build(arg, context, gate_context) for arg in gate_args)
             gate = gate_def(*built_args)
             self.gate_memo.set(memo_key, gate)
+        if self.is_in_block_context(
+            context, ["subcircuit", "parallel"]
+        ) and contains_subcircuit(gate):
+            # The call stands for the macro's body
+            raise JaqalError("Nesting subcircuit in subcircuit or parallel block")
         return gate
 
     def get_gate_definition(self, name, arg_count, gate_context):
@@ -402,6 +407,22 @@ class Builder:
             # them not comparing equal in tests.
             name = str(name)
         return UsePulsesStatement(name, all, import_path=self.import_path)
+
+
+def contains_subcircuit(obj):
+    """Return whether a statement is or contains a subcircuit block,
+    looking into the macros it calls."""
+    if isinstance(obj, GateStatement):
+        return isinstance(obj.gate_def, Macro) and contains_subcircuit(
+            obj.gate_def.body
+        )
+    if isinstance(obj, BlockStatement):
+        return obj.subcircuit or any(contains_subcircuit(s) for s in obj.statements)
+    if isinstance(obj, (LoopStatement, CaseStatement)):
+        return contains_subcircuit(obj.statements)
+    if isinstance(obj, BranchStatement):
+        return any(contains_subcircuit(c) for c in obj.cases)
+    return False
 
 
 def rebuild_macro_in_context(macro, context, gate_context):
